@@ -166,6 +166,8 @@ func runC16(p *Program, r *Report) {
 				nFail++
 			} else if op, isO := o.Ret.(*Opaque); isO && op.Key != "nil" && (strings.Contains(op.Key, "io.EOF") || strings.Contains(op.Key, "io.ErrUnexpectedEOF")) {
 				nFail++ // a sentinel error variable is a non-nil error
+			} else if nonNilErrorValue(o.Ret) {
+				nFail++ // the address of a freshly built error value (a typed error) is non-nil
 			} else {
 				badFail = fmt.Sprintf("a path returns %s at %s", valKey(o.Ret), p.Pos(o.Pos))
 			}
@@ -493,3 +495,15 @@ func checkReadProfilePropagation(p *Program, r *Report) {
 }
 
 var _ = big.NewInt
+
+// nonNilErrorValue: v is, as an error, certainly not nil — an error made on the
+// spot, a sentinel, or the address of a composite literal of an error type.
+func nonNilErrorValue(v Val) bool {
+	switch x := v.(type) {
+	case *ErrVal:
+		return !x.IsNil
+	case *Ptr:
+		return x.Cell != nil && x.Cell.Alloc
+	}
+	return false
+}
